@@ -570,6 +570,11 @@ def run_one(seed, idx, tier, pristine=None):
         sim.execute(st)
         if sim.violations:
             break
+        if sim.stats.get("hangs", 0) >= 3:
+            # the tree under test loops forever in this configuration (3.4): do not burn
+            # the run's wall-clock guard on it
+            sim.probe("run_cut_short_by_hangs")
+            break
     sim.finish()
     return _result(sim, trace)
 
